@@ -80,6 +80,8 @@ def add_computed_field(*args, resources=None, **kw):
             fields = [kw]
         elif len(args) == 1:
             fields = args[0]
+        # the specs are completed below: work on copies, the caller's stay as given
+        fields = [dict(f) for f in fields]
 
         for resource in package.pkg.descriptor['resources']:
             if matcher.match(resource['name']):
